@@ -662,8 +662,8 @@ class C13(BaseCheck):
                             'solo': {'text': text, 'want': 'exception', 'limit': 0}}
                 continue
             if isinstance(got, tuple) and got and got[0] == 'exc':
-                if fault_fired:
-                    degraded += 1    # an injected stdout fault may surface as an exception
+                if fault_fired and ('(injected)' in got[2] or got[1] == 'UnicodeEncodeError'):
+                    degraded += 1    # the injected stdout fault itself surfaced; anything else is judged strictly
                     continue
                 viol = {'clause': 'exception', 'detail': {'thread': tid, 'op': oi, 'kind': kind, 'filter': text,
                                                           'exc': got[1], 'msg': got[2]},
